@@ -1773,14 +1773,17 @@ func (c *RemoteClient) runRequests(ctx context.Context, interrupt <-chan interfa
 			c.requests = append(c.requests, request)
 
 		case request := <-c.removeRequestsChannel:
-			for i, r := range c.requests {
-				if r == request {
-					c.requests = append(c.requests[:i], c.requests[i+1:]...)
-					break
-				}
-			}
+			// The request was queued for adding before it was queued for removal.
+			c.addQueuedRequests()
+			c.deleteRequest(request)
 
 		case response := <-c.requestResponseChannel:
+			// A request is queued for adding before its message is sent, so it is already in the
+			// channel when its response gets here. Bring the pending requests up to date so the
+			// response finds it, and doesn't find a request that has already given up.
+			c.addQueuedRequests()
+			c.removeQueuedRequests()
+
 			err := c.handleRequestResponse(ctx, response.message)
 			if response.response != nil {
 				response.response <- err
@@ -1789,6 +1792,40 @@ func (c *RemoteClient) runRequests(ctx context.Context, interrupt <-chan interfa
 					logger.String("name", NameForMessageType(response.message.Payload.Type())),
 				}, "Failed to handle request response : %s", err)
 			}
+		}
+	}
+}
+
+func (c *RemoteClient) deleteRequest(request *request) {
+	for i, r := range c.requests {
+		if r == request {
+			c.requests = append(c.requests[:i], c.requests[i+1:]...)
+			break
+		}
+	}
+}
+
+// addQueuedRequests appends the requests waiting in the add channel to the pending requests.
+func (c *RemoteClient) addQueuedRequests() {
+	for {
+		select {
+		case request := <-c.addRequestsChannel:
+			c.requests = append(c.requests, request)
+		default:
+			return
+		}
+	}
+}
+
+// removeQueuedRequests removes the requests waiting in the remove channel from the pending
+// requests.
+func (c *RemoteClient) removeQueuedRequests() {
+	for {
+		select {
+		case request := <-c.removeRequestsChannel:
+			c.deleteRequest(request)
+		default:
+			return
 		}
 	}
 }
